@@ -79,7 +79,11 @@ func (p *Program) elemType(f *Field, fd *descriptor.FieldDescriptorProto) {
 	fd.Type = &t
 	switch f.Kind {
 	case KEnum, KMessage:
-		fd.TypeName = proto.String("." + p.Package + "." + f.Ref)
+		if IsForeignRef(f.Ref) {
+			fd.TypeName = proto.String("." + f.Ref)
+		} else {
+			fd.TypeName = proto.String("." + p.Package + "." + f.Ref)
+		}
 	case KTime:
 		fd.TypeName = proto.String(".google.protobuf.Timestamp")
 	case KDuration:
@@ -212,6 +216,9 @@ func (p *Program) FileDescriptor() *descriptor.FileDescriptorProto {
 	if usesDur {
 		fd.Dependency = append(fd.Dependency, durationImport)
 	}
+	for _, ff := range p.Foreign {
+		fd.Dependency = append(fd.Dependency, ff.File)
+	}
 	fd.Dependency = append(fd.Dependency, p.ExtraDeps...)
 	// source info the way protoc supplies it: leading comments for messages ([4, i]) and fields ([4, i, 2, j])
 	sci := &descriptor.SourceCodeInfo{}
@@ -253,7 +260,23 @@ func (p *Program) Request(param string) (*plugin.CodeGeneratorRequest, error) {
 	}
 	own := p.FileDescriptor()
 	files := []*descriptor.FileDescriptorProto{desc, gogo}
-	for _, d := range own.Dependency {
+	foreign := map[string]bool{}
+	var foreignFiles []*descriptor.FileDescriptorProto
+	deps := append([]string{}, own.Dependency...)
+	for _, ff := range p.Foreign {
+		foreign[ff.File] = true
+		q := &Program{File: ff.File, Package: ff.ProtoPackage, Messages: ff.Messages}
+		fd := q.FileDescriptor()
+		fd.Options.GoPackage = proto.String(ff.GoPackage)
+		foreignFiles = append(foreignFiles, fd)
+		deps = append(deps, fd.Dependency...)
+	}
+	seenDep := map[string]bool{}
+	for _, d := range deps {
+		if foreign[d] || seenDep[d] {
+			continue
+		}
+		seenDep[d] = true
 		switch d {
 		case timestampImport:
 			ts, err := registered("google/protobuf/timestamp.proto", timestampImport)
@@ -281,6 +304,7 @@ func (p *Program) Request(param string) (*plugin.CodeGeneratorRequest, error) {
 			})
 		}
 	}
+	files = append(files, foreignFiles...)
 	files = append(files, own)
 	toGen := []string{p.File}
 	for _, x := range p.MoreFiles {
